@@ -24,7 +24,7 @@ var c07Specials = func() []float64 {
 	s := []float64{0, math.SmallestNonzeroFloat64, -math.SmallestNonzeroFloat64,
 		math.Float64frombits(0x000FFFFFFFFFFFFF), -math.Float64frombits(0x000FFFFFFFFFFFFF), // max subnormal
 		math.Float64frombits(0x0010000000000000), -math.Float64frombits(0x0010000000000000), // min normal
-		1, -1, math.MaxFloat64, -math.MaxFloat64, math.Inf(1), math.Inf(-1),
+		1, -1, math.MaxFloat64, -math.MaxFloat64, math.Inf(1), math.Inf(-1), 1e250, -1e250, 1e300, -1e300, 3.2e231, -3.2e231, 1e-300,
 		0.9999999999999999, 1.0000000000000002, 0.5, 2, 3, 16, 255, 256, 1e9, -1e9}
 	for k := 0; k < 63; k += 7 {
 		f := math.Ldexp(1, k)
@@ -37,7 +37,24 @@ var c07Specials = func() []float64 {
 // 4-bit (and 7-bit) boundary, and arbitrary bit patterns.  Never NaN, never -0.
 func genFloat(t *rapid.T, label string) float64 {
 	var f float64
-	switch rapid.IntRange(0, 4).Draw(t, label+".class") {
+	switch rapid.IntRange(0, 6).Draw(t, label+".class") {
+	case 5, 6:
+		// sign, exponent and mantissa drawn separately: rapid's integers are biased to
+		// small values, so raw 64-bit patterns almost never have a large exponent; the
+		// range splitter behaves differently near the ends of the int64 image (wrap guards)
+		exp := uint64(rapid.IntRange(0, 0x7fe).Draw(t, label+".exp"))
+		if rapid.IntRange(0, 2).Draw(t, label+".huge") == 0 {
+			exp = uint64(rapid.IntRange(0x6f0, 0x7fe).Draw(t, label+".hugeexp"))
+		}
+		mant := rapid.Uint64().Draw(t, label+".mant") & (1<<52 - 1)
+		if rapid.Bool().Draw(t, label+".mantones") {
+			mant = ^mant & (1<<52 - 1)
+		}
+		bits := exp<<52 | mant
+		if rapid.Bool().Draw(t, label+".sign") {
+			bits |= 1 << 63
+		}
+		f = math.Float64frombits(bits)
 	case 0:
 		f = rapid.SampledFrom(c07Specials).Draw(t, label+".special")
 	case 1:
@@ -288,7 +305,9 @@ func TestC07Index(t *testing.T) {
 			pool = append(pool, nb)
 		}
 		dpool := []int64{0, 1, -1, 1 << 28, 1<<28 - 1, 1<<28 + 1, 1577934245000000000, 1577934245000000001,
-			-(1 << 35), -(1 << 35) - 1, 1<<42 - 1, 1 << 42, c07DateLo + 1, c07DateHi - 1}
+			-(1 << 35), -(1 << 35) - 1, 1<<42 - 1, 1 << 42, c07DateLo + 1, c07DateHi - 1,
+			time.Date(2240, 1, 1, 0, 0, 0, 0, time.UTC).UnixNano(), time.Date(2250, 6, 1, 0, 0, 0, 1, time.UTC).UnixNano(),
+			time.Date(1700, 1, 1, 0, 0, 0, 0, time.UTC).UnixNano(), time.Date(1690, 6, 1, 0, 0, 0, 0, time.UTC).UnixNano()}
 		if _, open := KnownOpen("C07", c07KnownExtremeDates); !open {
 			dpool = append(dpool, math.MaxInt64-1, math.MinInt64+1, c07DateLo, c07DateHi)
 		} else {
